@@ -148,7 +148,7 @@ impl Prop for C40 {
          interleaved ops: ShrEx/Sub notifications of 6 peers for heights around the head (right hash, one of 3 fake \
          hashes, or the hash of another height; repeated announcements before and after validation), headers reaching \
          the store (next height, gaps, adjacent fill-ins), single poll() calls, get_pool queries over the whole window \
-         and beyond, peer removals, injected task timeouts and store errors; 1 history in 8 uses a chain whose \
+         and beyond, peer removals, injected task timeouts and store errors (the height may be announced and stored again afterwards); 1 history in 8 uses a chain whose \
          neighbouring heights share a data hash (the property's precondition for get_pool is then false). \
          Non-trivial = an op at position >= 5 of its history; distinct = distinct (op, full tracker state) lines."
     }
@@ -201,7 +201,6 @@ impl Prop for C40 {
             }
             let len = rng.usize(40, 140);
             let mut recent: Vec<u64> = vec![];
-            let mut banned: BTreeSet<u64> = BTreeSet::new();
             for i in 0..len {
                 let nt = i >= 5;
                 let max = stored.iter().next_back().copied().unwrap_or(20);
@@ -242,7 +241,7 @@ impl Prop for C40 {
                         c
                     };
                     let h = if stored.is_empty() { rng.range(10, 30) } else { *rng.pick(&cands) };
-                    if h < CHAIN && !stored.contains(&h) && !banned.contains(&h) {
+                    if h < CHAIN && !stored.contains(&h) {
                         out.op(format!("store h={h}"), "store", nt);
                         stored.insert(h);
                     }
@@ -251,17 +250,19 @@ impl Prop for C40 {
                 } else if w < 94 {
                     let h = if rng.chance(2, 3) && !recent.is_empty() { *rng.pick(&recent) } else { max.saturating_sub(rng.range(0, 14)).max(1) + rng.range(0, 3) };
                     out.op(format!("get h={h}"), "get", nt);
-                } else if w < 97 {
+                } else if w < 96 {
                     out.op(format!("remove p={}", rng.usize(0, N_PEERS - 1)), "remove", nt);
                 } else if !recent.is_empty() {
-                    // the header never shows up (or the store fails); such a height is not stored later
+                    // the header task of a recently announced height ends in a timeout / store error.  The height may
+                    // well be announced and stored afterwards (the injected result does not consume the tracker's own
+                    // `wait_height` task, which then completes too: the model keeps it in its queue as well)
                     let h = *rng.pick(&recent);
                     if !stored.contains(&h) {
                         let name = if rng.bool() { "timeout" } else { "storeerr" };
                         out.op(format!("{name} h={h}"), name, nt);
-                        // never store it afterwards (the real task for it stays outstanding)
-                        banned.insert(h);
-                        recent.retain(|&r| r != h);
+                        if rng.chance(1, 2) {
+                            out.op("poll", "poll", nt);
+                        }
                     }
                 }
             }
